@@ -153,8 +153,15 @@ def analyse(r, html, d, ext, case):
 
     suffix = (':random' if random_foot else '') + (':unique' if ext & E['RANDOM_LABELS'] else '') + (':nolabels' if ext & E['NO_LABELS'] else '')
 
+    # --unique: the recorded defects need a manually labelled heading (the two id sequences diverge) or an automatic [Title][] link
+    # (its label is fixed at parse time); the same symptom without those ingredients is something else
+    has_manual = any(h['manual'] for h in d.headings)
+
     def bad(key, what):
-        r.violate(key + suffix, what, case, core.show(d.src, 700))
+        cause = ''
+        if ext & E['RANDOM_LABELS'] and key.startswith('crossref-') and key != 'crossref-dangling:link':
+            cause = ':manual-label-present' if has_manual else ''
+        r.violate(key + suffix + cause, what, case, core.show(d.src, 700))
     calls = 0
     for kind, name in KIND.items():
         list_start = text.find('<div class="%ss">' % name) if name != 'glossary' else text.find('<div class="glossary">')
@@ -220,7 +227,9 @@ def analyse(r, html, d, ext, case):
         if h.startswith('#') and not re.match(r'#(fn|cn|gn)(ref)?:', h):
             tgt = h[1:]
             if idset.get(tgt, 0) == 0:
-                bad('crossref-dangling:%s' % ('toc' if 'class="TOC"' in text[max(0, text.rfind('<div', 0, pos)):pos] else 'link'),
+                ds = text.rfind('<div class="TOC"', 0, pos)
+                in_toc = ds >= 0 and text.find('</div>', ds) > pos
+                bad('crossref-dangling:%s' % ('toc' if in_toc else 'link'),
                     'link to #%s but no element carries that id' % tgt)
                 break
     # the heading meant: an auto cross-reference [Title][] that became a link must point at the id on the heading with that title
